@@ -35,6 +35,12 @@ CLAIMS = {
  "C07": dict(text="Theorems C07_window, C07_clock_form: exact acceptance set of both is_totp_token_valid functions - a token integer (any int) is accepted iff it equals the code of step c, of c-1 when c>0, or of c+1 when c != 2^64-1; "
    "no cryptographic assumption; no wrap at 0 / 2^64-1. Both copies of the logic are modelled separately. Correspondence: true codes of steps c-3..c+3 (from the extracted spec) and out-of-range integers at counters 0,1,2,2^32,2^64-2,2^64-1, periods 1..INT_MAX, and a clock that ticks between reads.",
    note="Bound: key < 2^61 bytes.", ref="DESIGN.md 7/C07"),
+ "C08": dict(text="Theorems C08_no_overflow (every intermediate incl. now %% i and the guarded +-interval stays inside time_t for every clock value and 1 <= i < 2^31), C08_generate, C08_exact "
+   "(accepted iff the string equals the lowercase-hex HMAC of the decimal start of the current / previous (guarded) / next (guarded) interval, joined to the fingerprint by '|'), C08_adjacent (a token generated at t is accepted at every t' in the same "
+   "or an adjacent interval, for ALL clock values), C08_far_payloads and C08_fingerprint_binding (two or more intervals apart for non-negative clocks, or another / absent / empty fingerprint: the payload differs from all three candidate payloads - "
+   "decimal printing is injective and contains no '|'), C08_reject_modulo_collision (a string equal to none of the candidate MACs is rejected; 'rejected under another key/fingerprint/far clock' therefore holds modulo the explicit premise that HMAC does not collide on those payloads), "
+   "C08_other_hash (unconditional: hex lengths differ), C08_clock_failure. Correspondence: 4 functions x 3 key forms with an interposed clock at interval edges, 0, -1, time_t min/max, intervals incl. divisors of 2^63-1, empty vs absent fingerprint, mangled tokens, errno variants; std::to_string tied at the extremes.",
+   note="The rejected-elsewhere half is modulo the stated non-collision premise (checked concretely on every generated case); std::to_string is modelled by Coq's decimal printer and tied by correspondence.", ref="DESIGN.md 7/C08"),
  "C09": dict(text="Theorem C09_exact: the model of constant_time_equals (loop over max length, implicit zeros, length-mismatch seed) returns true iff the byte lists are equal, for all lengths and contents. "
    "Correspondence: six overloads on length pairs incl. differences of 256k, every single-bit difference position, cancelling differences.",
    note="", ref="DESIGN.md 7/C09"),
